@@ -133,8 +133,8 @@ theorem race_free {ceil : Nat} {hs : List Nat} {s : State} (hr : Reachable (cfg 
     s.race = false :=
   race_free_of (gen_ok ceil) hr
 
-/-- The payload is never accessed (nor freed again) after the free, and once freed no thread
-holds or is acquiring a handle. -/
+/-- Neither the payload nor the count (same box) is ever accessed, nor the box freed again,
+after the free; and once freed no thread holds or is acquiring a handle. -/
 theorem no_access_after_free {ceil : Nat} {hs : List Nat} {s : State}
     (hr : Reachable (cfg ceil) hs s) :
     s.uaf = false ∧
